@@ -36,7 +36,11 @@ status `panic` and leaves the store as it was before the call; the real
 directory is unusable afterwards (its lock stays held), the harness ends the
 history there.
 
-Names are interned naturals; `normalize` and `hidden` are parameters.
+Names are interned naturals; `normalize` and `hidden` are parameters.  `hidden` is
+always applied to the ORIGINAL name of an entry (`e.name`, as `isDeletable`,
+`VirtualReadDir`, `ReadDir`, `LookupAllChildren` do with `entry.name.String()`),
+never to its normalised form `e.norm`: under a case-folding normaliser a pattern
+that needs upper-case characters hides `._H` but not `._h`.
 -/
 namespace BbRe.Dir
 
